@@ -892,7 +892,7 @@ ALL_BRANCHES = [
 ]
 
 
-def check_cancelled_matrix(res: Result) -> None:
+def check_cancelled_matrix(res: Result, only: dict | None = None, tag: str = "C14") -> None:
     """from_thread.check_cancelled() against the reference reading of the host's scope chain: every
     combination of (outer cancelled?, middle shield?, middle cancelled?, inner shield?) around the
     to_thread.run_sync call (oracle only; the walk itself is theorem C14_check_cancelled_iff)"""
@@ -922,6 +922,9 @@ def check_cancelled_matrix(res: Result) -> None:
         return seen[0] if seen else "no-result"
 
     for oc, ms, mc, ish in it.product([False, True], repeat=4):
+        if only is not None and (oc, ms, mc, ish) != (only["outer_cancelled"], only["middle_shield"],
+                                                       only["middle_cancelled"], only["inner_shield"]):
+            continue
         want = (not ish) and (mc or ((not ms) and oc))
         try:
             got = anyio.run(probe, oc, ms, mc, ish)
@@ -935,7 +938,7 @@ def check_cancelled_matrix(res: Result) -> None:
                                      "inner_shield": ish}},
                 f"from_thread.check_cancelled() reported {got} where the scope chain says {want} "
                 f"(outer cancelled={oc}, middle shield={ms} cancelled={mc}, inner shield={ish})",
-                "C14:check-cancelled-chain"))
+                f"{tag}:check-cancelled-chain"))
 
 
 def run(ctx: Ctx) -> Result:
@@ -973,7 +976,10 @@ def run(ctx: Ctx) -> Result:
 
 def replay(ctx: Ctx, case: Any) -> Result:
     res = Result(rule="replay")
-    run_cases([case], res)
+    if "check_cancelled" in case:
+        check_cancelled_matrix(res, only=case["check_cancelled"])
+    else:
+        run_cases([case], res)
     return res
 
 
